@@ -222,6 +222,21 @@ def gen_random(ctx, bases):
         if params and pl == params and rng.random() < 0.5:
             m = {p: rng.choice(params) for p in params} if rng.random() < 0.5 else dict(zip(params, rng.sample(params, K)))
             direct.append(dict(tree=[m.get(l, l) for l in tree], pl=pl, kind="renamed", of=len(direct) - 1, cover=True))
+    # siblings: same number of nodes and the same SET of symbols, but an integer constant occurs a different number of times (the
+    # sum of ln|c| runs over occurrences, not over distinct constants); evaluated one after the other in the same process
+    for t1, t2, plx in ((["*", "*", "2", "x", "*", "x", "x"], ["*", "*", "2", "x", "*", "2", "x"], []),
+                        (["+", "*", "3", "x", "*", "x", "a0"], ["+", "*", "3", "x", "*", "3", "a0"], ["a0"]),
+                        (["*", "-2", "*", "x", "/", "x", "a0"], ["*", "-2", "*", "-2", "/", "x", "a0"], ["a0"]),
+                        (["exp", "/", "*", "x", "x", "2"], ["exp", "/", "*", "2", "x", "2"], [])):
+        direct.append(dict(tree=t1, pl=plx, kind="sibling", cover=True))
+        direct.append(dict(tree=t2, pl=plx, kind="sibling", cover=True))
+    for c0 in list(direct[:400]):
+        ints = [l for l in c0["tree"] if INT_RE.match(l) and abs(int(l)) >= 2 and abs(int(l)) < 2 ** 40]
+        rest = [j for j, l in enumerate(c0["tree"]) if not INT_RE.match(l) and c0["tree"].count(l) >= 2]
+        if ints and rest:
+            t2 = list(c0["tree"])
+            t2[rng.choice(rest)] = rng.choice(ints)
+            direct.append(dict(tree=t2, pl=c0["pl"], kind="sibling", cover=c0.get("cover", True)))
     for lab in ("9223372036854775807", "-9223372036854775807", "9223372036854775808", "-9223372036854775808", "18446744073709551616"):
         direct.append(dict(tree=["+", lab, "x"], pl=[], kind="boundary", cover=False))
     names = sorted(bases)
